@@ -92,3 +92,518 @@ Proof.
   intros H. apply topo_layers_with_inv in H as [cs [L [_ [H _]]]].
   eapply check_passes_acyclic; [|exact H]. apply prepare_no_self.
 Qed.
+
+(* ------------------------------------------------------------ the walk from the top, in full *)
+Lemma walk_top_full w pins top fuel es :
+  length w < fuel -> node_table w top = Some es ->
+  exists out st, walk_top fuel w pins top = Ok (out, st) /\
+    (forall q, In q (map enode out) <-> reachP w pins top q) /\
+    (forall k s, gedge (pd st) k s <-> (k = top \/ In k (vis st)) /\ stepP w pins k s) /\
+    (forall k, In k (vis st) -> reachP w pins top k) /\
+    (forall q, reachP w pins top q -> nreal q = true -> In q (vis st)) /\
+    (forall k, In k (gkeys (pd st)) -> k = top \/ In k (vis st)).
+Proof.
+  intros Hf Ht. destruct (walk_top_spec w pins top fuel Hf) as [out [st [E Hreach]]].
+  exists out, st. split; [exact E|]. split; [exact Hreach|].
+  unfold walk_top in E. rewrite Ht in E.
+  destruct (walk_ok_all w pins fuel top 1 es (mkW [] [(top, [])])) as [out' [st' [E' Hok]]].
+  { pose proof (unvisited_le w (mkW [] [(top, [])])). lia. }
+  rewrite E in E'. inversion E'. subst out' st'. clear E'.
+  destruct Hok as [M N L V S Em P1 P2 P3 P4 P5]. simpl in *.
+  assert (Hnoedge : forall k s, ~ gedge [(top, @nil node)] k s).
+  { intros k s [ss [[Q | []] I]]. inversion Q. subst. destruct I. }
+  split; [|split; [|split]].
+  - intros k s. split.
+    + intros H. destruct (P2 k s H) as [H0 | [[-> [e [Ie ->]]] | [H1 [_ H3]]]].
+      * destruct (Hnoedge _ _ H0).
+      * split; [auto|]. exists es, e. auto.
+      * auto.
+    + intros [[-> | Hk] [es_k [e [Tk [Ie ->]]]]].
+      * rewrite Ht in Tk. inversion Tk. subst. apply P3, Ie.
+      * eapply P4; eauto.
+  - intros k Hk. apply Hreach. apply Em; auto.
+  - intros q Hq Hr. apply V; [apply Hreach, Hq | exact Hr].
+  - intros k Hk. destruct (P5 k Hk) as [[<- | []] | [-> | [H _]]]; auto.
+Qed.
+
+(* ------------------------------------------------------------ hypotheses of the build-order theorem *)
+
+(* the resolved edges are consistent with the declarations: what a line resolved to is declared, and an
+   explicit version that did not resolve is not declared *)
+Definition wf_world (w : world) : Prop :=
+  forall n v es e, table_of w n v = Some es -> In e es ->
+    (forall r, eres e = Some r -> declared w (ename e) r = true) /\
+    (forall v', eres e = None -> evers e = Some v' -> declared w (ename e) v' = false).
+
+Definition closure (w : world) (top q : node) : Prop := q = top \/ reach_plus w top q.
+
+(* the signature of the open finding D16, negated *)
+Definition one_version_per_name (w : world) (top : node) : Prop :=
+  forall p q, closure w top p -> closure w top q -> nname p = nname q -> p = q.
+
+Definition acyclic_from (w : world) (top : node) : Prop :=
+  forall p, closure w top p -> ~ reach_plus w p p.
+
+Lemma step_is_stepP w p q : step w p q <-> stepP w [] p q.
+Proof. unfold step, stepP, tg. split; intros [es [e H]]; exists es, e; exact H. Qed.
+
+Lemma closure_step w top p q : closure w top p -> step w p q -> closure w top q.
+Proof.
+  intros [-> | R] S; right.
+  - apply rp_one. apply step_is_stepP, S.
+  - eapply reachP_trans_step; [exact R | apply step_is_stepP, S].
+Qed.
+
+Lemma pin_of_In pins n v : In (n, v) pins -> exists v', pin_of pins n = Some v' /\ In (n, v') pins.
+Proof.
+  induction pins as [|[k u] r IH]; simpl; [tauto|].
+  intros [Q | I].
+  - inversion Q. subst. destruct (pin_of r n) as [x|] eqn:E.
+    + exists x. split; [reflexivity|]. right.
+      clear - E. revert E. induction r as [|[k u] r IH]; simpl; [discriminate|].
+      destruct (pin_of r n) as [y|] eqn:F.
+      * intros Q. inversion Q. subst. right. apply IH. reflexivity.
+      * destruct (str_eqb n k) eqn:G; [|discriminate]. apply str_eqb_eq in G. subst. intros Q. inversion Q. auto.
+    + rewrite str_eqb_refl. exists v. auto.
+  - destruct (IH I) as [v' [E I']]. rewrite E. exists v'. auto.
+Qed.
+
+Lemma node_table_inv w p es : node_table w p = Some es -> exists n v, p = (n, Some v, true) /\ table_of w n v = Some es.
+Proof.
+  destruct p as [[n ov] r]. unfold node_table, nreal, nver, nname. simpl.
+  destruct r; [|discriminate]. destruct ov as [v|]; [|discriminate]. intros H. exists n, v. auto.
+Qed.
+
+Lemma own_target_name e : nname (own_target e) = ename e.
+Proof. unfold own_target. destruct (eres e); reflexivity. Qed.
+
+(* under the three hypotheses the versions pinned for the second walk are the versions the lines denote anyway *)
+Lemma pins_agree w top dp :
+  wf_world w -> one_version_per_name w top -> acyclic_from w top ->
+  (forall q, In q (map enode dp) <-> q <> top /\ reach_plus w top q) ->
+  forall p es e, closure w top p -> node_table w p = Some es -> In e es ->
+    resolve w (map (fun x => (nname (enode x), nver (enode x))) dp) e = own_target e.
+Proof.
+  intros Hwf Hone Hac Hdp p es e Cp Tp Ie.
+  set (pins := map (fun x => (nname (enode x), nver (enode x))) dp).
+  set (t := own_target e).
+  assert (St : step w p t) by (exists es, e; auto).
+  assert (Ct : closure w top t) by (eapply closure_step; eauto).
+  assert (Nt : t <> top).
+  { intros Q. destruct Ct as [_ | R].
+    - destruct Cp as [-> | Rp].
+      + apply (Hac top (or_introl eq_refl)). rewrite Q in St. apply rp_one, step_is_stepP, St.
+      + apply (Hac top (or_introl eq_refl)). rewrite Q in St. eapply reachP_trans_step; [exact Rp | apply step_is_stepP, St].
+    - rewrite Q in R. apply (Hac top (or_introl eq_refl)), R. }
+  assert (Rt : reach_plus w top t) by (destruct Ct; [contradiction | assumption]).
+  assert (Ipin : In (ename e, nver t) pins).
+  { unfold pins. apply in_map_iff. assert (Idp : In t (map enode dp)) by (apply Hdp; auto).
+    apply in_map_iff in Idp as [x [Ex Ix]]. exists x. rewrite Ex. unfold t at 1. rewrite own_target_name. auto. }
+  destruct (pin_of_In _ _ _ Ipin) as [v' [Epin Iv']].
+  assert (Ev : v' = nver t).
+  { unfold pins in Iv'. apply in_map_iff in Iv' as [x [Qx Ix]]. inversion Qx as [[Q1 Q2]].
+    assert (Cq : closure w top (enode x)).
+    { right. apply (Hdp (enode x)). apply in_map, Ix. }
+    assert (enode x = t). { apply Hone; auto. rewrite Q1. unfold t. symmetry. apply own_target_name. }
+    congruence. }
+  subst v'. unfold resolve. fold pins. rewrite Epin.
+  destruct (node_table_inv _ _ _ Tp) as [n [v [-> Tn]]]. destruct (Hwf n v es e Tn Ie) as [W1 W2].
+  unfold t, own_target in *. destruct (eres e) as [r|] eqn:Er; unfold nver; simpl.
+  - rewrite (W1 r eq_refl). reflexivity.
+  - destruct (evers e) as [v'|] eqn:Ev; simpl.
+    + rewrite (W2 v' eq_refl eq_refl). reflexivity.
+    + reflexivity.
+Qed.
+
+Lemma reach_agree w pins top :
+  (forall p es e, closure w top p -> node_table w p = Some es -> In e es -> resolve w pins e = own_target e) ->
+  (forall p q, closure w top p -> (stepP w pins p q <-> step w p q)) /\
+  (forall p q, closure w top p -> (reachP w pins p q <-> reach_plus w p q)).
+Proof.
+  intros Hag.
+  assert (Hs : forall p q, closure w top p -> (stepP w pins p q <-> step w p q)).
+  { intros p q Cp. unfold stepP, step, tg. split; intros [es [e [T [I ->]]]]; exists es, e; (split; [exact T|]; split; [exact I|]).
+    - apply Hag with (p := p) (es := es); auto.
+    - symmetry. apply Hag with (p := p) (es := es); auto. }
+  split; [exact Hs|]. intros p q Cp. split.
+  - intros R. revert Cp. induction R as [p q S | p q r S R IH]; intros Cp.
+    + apply rp_one, step_is_stepP, Hs; auto.
+    + apply Hs in S; [|exact Cp]. eapply rp_more; [apply step_is_stepP, S|]. apply IH. eapply closure_step; eauto.
+  - intros R. unfold reach_plus in R. revert Cp. induction R as [p q S | p q r S R IH]; intros Cp.
+    + apply rp_one. apply Hs; [exact Cp | apply step_is_stepP, S].
+    + apply step_is_stepP in S. eapply rp_more; [apply Hs; [exact Cp | exact S]|]. apply IH. eapply closure_step; eauto.
+Qed.
+
+Lemma reach_plus_last w top x : reach_plus w top x -> exists k, closure w top k /\ step w k x.
+Proof.
+  unfold reach_plus. intros R.
+  assert (G : forall p q, reachP w [] p q -> closure w top p -> exists k, closure w top k /\ step w k q).
+  { induction 1 as [p q S | p q r S R' IH]; intros Cp.
+    - exists p. split; [exact Cp | apply step_is_stepP, S].
+    - apply IH. eapply closure_step; [exact Cp | apply step_is_stepP, S]. }
+  apply (G top x R). left. reflexivity.
+Qed.
+
+(* ------------------------------------------------------------ layers are disjoint and made of components *)
+Lemma peel_elems f : forall m L, peel f m = Ok L -> forall i c, In c (nth i L []) -> In c (map fst m).
+Proof.
+  induction f as [|f IH]; intros m L; [discriminate|].
+  rewrite peel_unfold. cbv zeta.
+  set (ordered := map fst (filter (fun it => match snd it with [] => true | _ => false end) m)).
+  destruct ordered as [|o1 orest] eqn:Eo.
+  - destruct m; [|discriminate]. intros Q. inversion Q. intros [|i] c H; destruct H.
+  - rewrite <- Eo. set (m' := map _ _).
+    destruct (peel f m') as [L'|] eqn:Ep; [|discriminate].
+    intros Q. inversion Q. subst L. clear Q. intros [|i] c H; simpl in H.
+    + unfold ordered in H. apply in_map_iff in H as [it [<- H]]. apply filter_In in H as [H _]. apply in_map, H.
+    + apply (IH m' L' Ep) in H. unfold m' in H. rewrite map_map in H. simpl in H.
+      apply in_map_iff in H as [it [<- H]]. apply filter_In in H as [H _]. apply in_map, H.
+Qed.
+
+Lemma peel_unique f : forall m L, peel f m = Ok L ->
+  forall i j c, In c (nth i L []) -> In c (nth j L []) -> i = j.
+Proof.
+  induction f as [|f IH]; intros m L; [discriminate|].
+  rewrite peel_unfold. cbv zeta.
+  set (ordered := map fst (filter (fun it => match snd it with [] => true | _ => false end) m)).
+  destruct ordered as [|o1 orest] eqn:Eo.
+  - destruct m; [|discriminate]. intros Q. inversion Q. intros [|i] j c H; destruct H.
+  - rewrite <- Eo. set (m' := map _ _).
+    destruct (peel f m') as [L'|] eqn:Ep; [|discriminate].
+    intros Q. inversion Q. subst L. clear Q.
+    assert (Hlater : forall k c, In c (nth k L' []) -> ~ In c ordered).
+    { intros k c H. apply (peel_elems f m' L' Ep) in H. unfold m' in H. rewrite map_map in H. simpl in H.
+      apply in_map_iff in H as [it [<- H]]. apply filter_In in H as [_ H].
+      apply negb_true_iff, mem_comp_not_In in H. exact H. }
+    intros [|i] [|j] c Hi Hj; simpl in Hi, Hj.
+    + reflexivity.
+    + exfalso. eapply Hlater; eauto.
+    + exfalso. eapply Hlater; eauto.
+    + f_equal. eapply IH; eauto.
+Qed.
+
+Lemma comp_layers_elems check g cs L :
+  comp_layers check g cs = Ok L -> forall i c, In c (nth i L []) -> In c cs.
+Proof.
+  unfold comp_layers. destruct (check && _); [discriminate|].
+  destruct (cg_of cs g (cg_init cs)) as [m|] eqn:E; [|discriminate].
+  intros P i c H. apply (peel_elems _ _ _ P) in H.
+  destruct (cg_of_spec cs g _ m E (fun c I => proj2 (cg_init_keys cs c) I)) as [K _].
+  rewrite K in H. apply cg_init_keys, H.
+Qed.
+
+Lemma comp_layers_unique check g cs L :
+  comp_layers check g cs = Ok L -> forall i j c, In c (nth i L []) -> In c (nth j L []) -> i = j.
+Proof.
+  unfold comp_layers. destruct (check && _); [discriminate|].
+  destruct (cg_of cs g (cg_init cs)) as [m|]; [|discriminate].
+  intros P. eapply peel_unique; eauto.
+Qed.
+
+Lemma node_cmp_total a b : node_cmp a b <> None.
+Proof. discriminate. Qed.
+
+Lemma sort_layers_spec L : forall NL, sort_layers node_cmp L = Ok NL ->
+  length NL = length L /\ forall i x, In x (nth i NL []) <-> In x (concat (nth i L [])).
+Proof.
+  induction L as [|l r IH]; intros NL; simpl.
+  - intros Q. inversion Q. split; [reflexivity|]. intros [|i] x; simpl; tauto.
+  - destruct (psort_total node_cmp node_cmp_total (concat l)) as [s [E [H _]]]. rewrite E.
+    destruct (sort_layers node_cmp r) as [r'|]; [|discriminate].
+    intros Q. inversion Q. subst NL. destruct (IH r' eq_refl) as [H1 H2]. split; [simpl; congruence|].
+    intros [|i] x; simpl; [apply H | apply H2].
+Qed.
+
+(* ------------------------------------------------------------ depths by name *)
+Lemma fold_aset_other (l : list node) (v : nat) name : forall m,
+  ~ In name (map nname l) ->
+  alookup name (fold_left (fun m p => aset (nname p) v m) l m) = alookup name m.
+Proof.
+  induction l as [|p l IH]; intros m H; simpl; [reflexivity|].
+  rewrite IH by (simpl in H; tauto). apply alookup_aset_other. simpl in H. intros Q. apply H. left. congruence.
+Qed.
+
+Lemma fold_aset_in_name (l : list node) (v : nat) name : forall m,
+  In name (map nname l) -> alookup name (fold_left (fun m p => aset (nname p) v m) l m) = Some v.
+Proof.
+  induction l as [|p l IH]; intros m H; simpl; [destruct H|].
+  destruct (in_dec str_eq_dec name (map nname l)) as [J | J]; [apply IH, J|].
+  destruct H as [<- | H]; [|contradiction].
+  rewrite fold_aset_other by exact J. apply alookup_aset_same.
+Qed.
+
+Lemma fold_aset_in (l : list node) (v : nat) x m :
+  In x l -> alookup (nname x) (fold_left (fun m p => aset (nname p) v m) l m) = Some v.
+Proof. intros H. apply fold_aset_in_name. apply in_map, H. Qed.
+
+Lemma dbn_other NL name : forall i nl m,
+  (forall j y, In y (nth j NL []) -> nname y <> name) ->
+  alookup name (depth_by_name NL i nl m) = alookup name m.
+Proof.
+  induction NL as [|l r IH]; intros i nl m H; simpl; [reflexivity|].
+  rewrite IH.
+  - apply fold_aset_other. intros J. apply in_map_iff in J as [y [Ey Iy]]. apply (H 0 y); auto.
+  - intros j y Iy. apply (H (S j) y). exact Iy.
+Qed.
+
+Lemma dbn_spec NL x : forall i nl m j,
+  (forall j' y, In y (nth j' NL []) -> nname y = nname x -> j' = j) ->
+  In x (nth j NL []) ->
+  alookup (nname x) (depth_by_name NL i nl m) = Some (nl - (i + j) - 1).
+Proof.
+  induction NL as [|l r IH]; intros i nl m j Hu Hx; [destruct j; destruct Hx|].
+  simpl. destruct j as [|j]; simpl in Hx.
+  - rewrite dbn_other.
+    + rewrite (fold_aset_in l _ x m Hx). f_equal. lia.
+    + intros j' y Iy Q. specialize (Hu (S j') y Iy Q). discriminate.
+  - rewrite (IH (S i) nl _ j).
+    + f_equal. lia.
+    + intros j' y Iy Q. specialize (Hu (S j') y Iy Q). lia.
+    + exact Hx.
+Qed.
+
+(* ------------------------------------------------------------ entries of the final listing *)
+Lemma keep_last_sub l x : In x (keep_last l) -> In x l.
+Proof.
+  induction l as [|y l IH]; simpl; [tauto|].
+  destruct (mem_node (enode y) (map enode l)); [auto|]. intros [H | H]; auto.
+Qed.
+
+Lemma topo_finish_entry NL dp x :
+  In x (topo_finish NL dp) ->
+  exists y, In y dp /\ enode x = enode y /\
+            edepth x = edepth (relabel (depth_by_name NL 0 (S (length NL)) []) y).
+Proof.
+  unfold topo_finish, dedup. intros H. apply in_map_iff in H as [z [<- H]]. apply keep_last_sub in H.
+  rewrite entry_sort_In in H. apply in_map_iff in H as [y [<- H]].
+  exists y. split; [exact H|]. split; [apply relabel_node | reflexivity].
+Qed.
+
+(* ------------------------------------------------------------ the build order *)
+Lemma reach_first_table w pins p q : reachP w pins p q -> exists es, node_table w p = Some es.
+Proof. intros [p' q' [es [e [T _]]] | p' q' r [es [e [T _]]] _]; eauto. Qed.
+
+Lemma singleton_of (cs : list comp) (g : graph) c n :
+  (forall c, In c cs -> exists x, c = [x] /\ In x (gkeys g)) -> In c cs -> In n c -> c = [n].
+Proof. intros H Ic In_. destruct (H c Ic) as [x [-> _]]. destruct In_ as [-> | []]. reflexivity. Qed.
+
+Theorem build_order w top fuel l :
+  length w < fuel -> wf_world w -> one_version_per_name w top -> acyclic_from w top ->
+  dependent_products fuel w top true = Ok l ->
+  forall x y, In x l -> In y l -> step w (enode x) (enode y) -> edepth x < edepth y.
+Proof.
+  intros Hf Hwf Hone Hac D x y Ix Iy Sxy.
+  unfold dependent_products, dependent_products_with in D.
+  destruct (walk_top_spec w [] top fuel Hf) as [out1 [st1 [E1 Hout1]]]. rewrite E1 in D. cbn [negb] in D.
+  cbv zeta in D.
+  set (dp := drop_top top out1) in *.
+  set (pins := map (fun x => (nname (enode x), nver (enode x))) dp) in *.
+  assert (Hdp : forall q, In q (map enode dp) <-> q <> top /\ reach_plus w top q).
+  { intros q. unfold dp. rewrite drop_top_nodes, Hout1. reflexivity. }
+  destruct (walk_top fuel w pins top) as [[out2 st2]|] eqn:E2; [|discriminate].
+  destruct (topo_layers_with node_cmp false (pd st2)) as [NL|] eqn:ET; [|discriminate].
+  inversion D. subst l. clear D.
+  set (td := depth_by_name NL 0 (S (length NL)) []).
+  destruct (topo_finish_entry NL dp x Ix) as [x0 [Ix0 [Ex Dx]]].
+  destruct (topo_finish_entry NL dp y Iy) as [y0 [Iy0 [Ey Dy]]].
+  fold td in Dx, Dy.
+  assert (Rx : enode x <> top /\ reach_plus w top (enode x)) by (apply Hdp; rewrite Ex; apply in_map, Ix0).
+  assert (Ry : enode y <> top /\ reach_plus w top (enode y)) by (apply Hdp; rewrite Ey; apply in_map, Iy0).
+  destruct (reach_first_table _ _ _ _ (proj2 Rx)) as [es Ttop].
+  destruct (walk_top_full w pins top fuel es Hf Ttop) as [out2' [st2' [E2' [Hout2 [Hg [Hvis [Hreal Hkeys]]]]]]].
+  rewrite E2 in E2'. inversion E2'. subst out2' st2'. clear E2'.
+  pose proof (pins_agree w top dp Hwf Hone Hac Hdp) as Hag. fold pins in Hag.
+  destruct (reach_agree w pins top Hag) as [Hs Hr].
+  assert (Ctop : closure w top top) by (left; reflexivity).
+  set (G0 := pd st2) in *. set (G := prepare G0).
+  (* who has edges in G0 *)
+  assert (Hsrc : forall a, a = top \/ In a (vis st2) -> closure w top a).
+  { intros a [-> | H]; [exact Ctop|]. right. apply Hr; [exact Ctop|]. apply Hvis, H. }
+  assert (Hsrc' : forall a b, closure w top a -> step w a b -> a = top \/ In a (vis st2)).
+  { intros a b [-> | R] S; [auto|]. right. apply Hreal.
+    - apply Hr; [exact Ctop | exact R].
+    - destruct S as [es_a [e [T _]]]. eapply node_table_real; eauto. }
+  assert (g1 : forall a b, gedge G a b -> closure w top a /\ step w a b /\ a <> b).
+  { intros a b H. apply prepare_gedge in H as [H Ne]. apply Hg in H as [Ha Hst].
+    pose proof (Hsrc a Ha) as Ca. split; [exact Ca|]. split; [apply Hs; auto | exact Ne]. }
+  assert (g2 : forall a b, closure w top a -> step w a b -> a <> b -> gedge G a b).
+  { intros a b Ca S Ne. apply prepare_gedge. split; [|exact Ne]. apply Hg. split; [eapply Hsrc'; eauto|].
+    apply Hs; auto. }
+  assert (g3 : forall n, In n (gkeys G) -> closure w top n).
+  { intros n H. apply prepare_keys in H as [H | [k H]].
+    - apply Hsrc, Hkeys, H.
+    - apply Hg in H as [Hk Hst]. pose proof (Hsrc k Hk) as Ck. eapply closure_step; [exact Ck|]. apply Hs; auto. }
+  assert (g4 : forall n, reach_plus w top n -> In n (gkeys G)).
+  { intros n R. destruct (reach_plus_last w top n R) as [k [Ck Sk]]. apply prepare_keys. right. exists k.
+    apply Hg. split; [eapply Hsrc'; eauto | apply Hs; auto]. }
+  assert (Hpath : forall a b, gpath G a b -> closure w top a -> reach_plus w a b).
+  { induction 1 as [a b E | a b c E _ IH]; intros Ca.
+    - destruct (g1 a b E) as [_ [S _]]. apply rp_one, step_is_stepP, S.
+    - destruct (g1 a b E) as [_ [S _]]. eapply rp_more; [apply step_is_stepP, S|]. apply IH. eapply closure_step; eauto. }
+  assert (Gacyc : acyclic G).
+  { intros a P. assert (Ca : closure w top a).
+    { inversion P as [a' b' E | a' b' c' E P']; subst; apply (proj1 (g1 _ _ E)). }
+    apply (Hac a Ca). apply Hpath; auto. }
+  destruct (topo_layers_with_inv _ _ _ _ ET) as [cs [L [Escc [Elay Esort]]]]. fold G in Escc, Elay.
+  destruct (scc_dag G cs Gacyc (prepare_closed G0) Escc) as [Hsing Hcover].
+  destruct (sort_layers_spec L NL Esort) as [Hlen Hmem].
+  (* where a node of G sits, and the depth its name gets *)
+  assert (Hnode : forall n, In n (gkeys G) ->
+            lidx L [n] < length NL /\ alookup (nname n) td = Some (length NL - lidx L [n])).
+  { intros n Kn. set (j := lidx L [n]).
+    assert (Ij : In [n] (nth j L [])) by (apply (comp_layers_yields _ _ _ _ Elay), Hcover, Kn).
+    assert (Jlt : j < length L).
+    { destruct (Nat.lt_ge_cases j (length L)) as [H | H]; [exact H|]. rewrite nth_overflow in Ij by exact H. destruct Ij. }
+    split; [lia|].
+    assert (Hdb : alookup (nname n) td = Some (S (length NL) - (0 + j) - 1)).
+    { apply dbn_spec.
+      - intros j' z Iz Qz. apply Hmem in Iz. apply in_concat in Iz as [c [Ic Izc]].
+        assert (Ics : In c cs) by (eapply comp_layers_elems; eauto).
+        destruct (Hsing c Ics) as [z' [-> Kz]]. destruct Izc as [<- | []].
+        assert (z' = n) by (apply Hone; auto). subst z'.
+        eapply comp_layers_unique; eauto.
+      - apply Hmem. apply in_concat. exists [n]. split; [exact Ij | left; reflexivity]. }
+    rewrite Hdb. f_equal. lia. }
+  assert (Kx : In (enode x) (gkeys G)) by (apply g4, Rx).
+  assert (Ky : In (enode y) (gkeys G)) by (apply g4, Ry).
+  destruct (Hnode _ Kx) as [Lx Tx]. destruct (Hnode _ Ky) as [Ly Ty].
+  assert (Cx : closure w top (enode x)) by (right; apply Rx).
+  assert (Nxy : enode x <> enode y).
+  { intros Q. apply (Hac _ Cx). rewrite <- Q in Sxy. apply rp_one, step_is_stepP, Sxy. }
+  pose proof (g2 _ _ Cx Sxy Nxy) as [ss [I1 I2]].
+  destruct (comp_layers_order _ _ _ _ Elay _ _ _ I1 I2) as [ca [cb [Ha [Hb Hord]]]].
+  apply comp_of_In in Ha as [Ha1 Ha2]. apply comp_of_In in Hb as [Hb1 Hb2].
+  rewrite (singleton_of cs G ca _ Hsing Ha1 Ha2) in Hord.
+  rewrite (singleton_of cs G cb _ Hsing Hb1 Hb2) in Hord.
+  destruct Hord as [Q | Hord]; [inversion Q; contradiction|].
+  unfold relabel in Dx, Dy. rewrite <- Ex in Dx. rewrite <- Ey in Dy. rewrite Tx in Dx. rewrite Ty in Dy.
+  unfold edepth in Dx at 2. unfold edepth in Dy at 2. simpl in Dx, Dy. lia.
+Qed.
+
+(* ------------------------------------------------------------ the listing is sorted by depth *)
+From Coq Require Import Sorted.
+
+Definition depth_le (a b : entry) : Prop := edepth a <= edepth b.
+
+Lemma entry_cmp_gt a b : entry_cmp a b = Some Gt -> edepth b <= edepth a.
+Proof.
+  unfold entry_cmp, lex. destruct (Nat.compare (edepth a) (edepth b)) eqn:E.
+  - apply Nat.compare_eq in E. lia.
+  - discriminate.
+  - apply Nat.compare_gt_iff in E. lia.
+Qed.
+
+Lemma entry_cmp_not_gt a b c : entry_cmp a b = Some c -> c <> Gt -> edepth a <= edepth b.
+Proof.
+  unfold entry_cmp, lex. destruct (Nat.compare (edepth a) (edepth b)) eqn:E.
+  - apply Nat.compare_eq in E. lia.
+  - apply Nat.compare_lt_iff in E. lia.
+  - intros Q. inversion Q. congruence.
+Qed.
+
+Lemma pinsert_sorted x : forall l r,
+  StronglySorted depth_le l -> pinsert entry_cmp x l = Ok r -> StronglySorted depth_le r.
+Proof.
+  induction l as [|y l IH]; intros r Hs; cbn [pinsert].
+  - intros Q. inversion Q. constructor; constructor.
+  - destruct (entry_cmp x y) as [c|] eqn:E; [|discriminate].
+    inversion Hs as [|? ? Hs' Hall]. subst.
+    assert (Hle : c <> Gt -> StronglySorted depth_le (x :: y :: l)).
+    { intros Hc. pose proof (entry_cmp_not_gt x y c E Hc) as Hxy. constructor; [exact Hs|].
+      constructor; [exact Hxy|]. eapply Forall_impl; [|exact Hall]. intros z Hz. unfold depth_le in *. lia. }
+    destruct c.
+    + intros Q. inversion Q. apply Hle. discriminate.
+    + intros Q. inversion Q. apply Hle. discriminate.
+    + destruct (pinsert entry_cmp x l) as [r'|] eqn:E'; [|discriminate]. intros Q. inversion Q. subst r.
+      constructor; [apply IH; auto|].
+      destruct (pinsert_total entry_cmp (fun a b => ltac:(discriminate)) x l) as [r'' [F1 [F2 _]]].
+      rewrite E' in F1. inversion F1. subst r''.
+      apply Forall_forall. intros z Hz. apply F2 in Hz as [-> | Hz].
+      * apply entry_cmp_gt, E.
+      * rewrite Forall_forall in Hall. apply Hall, Hz.
+Qed.
+
+Lemma entry_sort_sorted l : StronglySorted depth_le (entry_sort l).
+Proof.
+  unfold entry_sort.
+  assert (G : forall l r, psort entry_cmp l = Ok r -> StronglySorted depth_le r).
+  { induction l0 as [|x l0 IH]; intros r; simpl.
+    - intros Q. inversion Q. constructor.
+    - destruct (psort entry_cmp l0) as [r0|]; [|discriminate]. intros Q. eapply pinsert_sorted; [|exact Q]. apply IH. reflexivity. }
+  destruct (psort_total entry_cmp (fun a b => ltac:(discriminate)) l) as [r [E _]]. rewrite E. eapply G; eauto.
+Qed.
+
+Lemma keep_last_sorted l : StronglySorted depth_le l -> StronglySorted depth_le (keep_last l).
+Proof.
+  induction l as [|x l IH]; simpl; [auto|]. intros Hs. inversion Hs as [|? ? Hs' Hall]. subst.
+  destruct (mem_node (enode x) (map enode l)); [auto|].
+  constructor; [auto|]. apply Forall_forall. intros z Hz. apply keep_last_sub in Hz.
+  rewrite Forall_forall in Hall. auto.
+Qed.
+
+Lemma map_sorted (f : entry -> entry) l :
+  (forall x, edepth (f x) = edepth x) -> StronglySorted depth_le l -> StronglySorted depth_le (map f l).
+Proof.
+  intros Hf. induction 1 as [|x l Hs IH Hall]; simpl; constructor; [exact IH|].
+  apply Forall_forall. intros z Hz. apply in_map_iff in Hz as [z0 [<- Hz0]].
+  rewrite Forall_forall in Hall. unfold depth_le. rewrite !Hf. apply Hall, Hz0.
+Qed.
+
+Lemma topo_finish_sorted NL dp : StronglySorted depth_le (topo_finish NL dp).
+Proof.
+  unfold topo_finish, dedup. apply map_sorted; [reflexivity|]. apply keep_last_sorted, entry_sort_sorted.
+Qed.
+
+Lemma listing_sorted cmp fuel w top l :
+  dependent_products_with cmp fuel w top true = Ok l -> StronglySorted depth_le l.
+Proof.
+  unfold dependent_products_with. destruct (walk_top fuel w [] top) as [[o1 s1]|]; [|discriminate].
+  cbn [negb]. cbv zeta. destruct (walk_top fuel w _ top) as [[o2 s2]|]; [|discriminate].
+  destruct (topo_layers_with cmp false (pd s2)) as [L|]; [|discriminate].
+  intros Q. inversion Q. apply topo_finish_sorted.
+Qed.
+
+Lemma sorted_suffix l1 : forall l2, StronglySorted depth_le (l1 ++ l2) -> StronglySorted depth_le l2.
+Proof. induction l1 as [|x l1 IH]; simpl; intros l2 H; [exact H|]. inversion H. auto. Qed.
+
+(* ------------------------------------------------------------ deciding the hypotheses on a concrete world *)
+Definition closure_list (fuel : nat) (w : world) (top : node) : option (list node) :=
+  match walk_top fuel w [] top with Ok (out, _) => Some (top :: map enode out) | Err _ => None end.
+
+Definition one_version_b (l : list node) : bool :=
+  forallb (fun p => forallb (fun q => implb (str_eqb (nname p) (nname q)) (node_eqb p q)) l) l.
+
+Definition acyclic_b (fuel : nat) (w : world) (l : list node) : bool :=
+  forallb (fun p => match walk_top fuel w [] p with
+                    | Ok (out, _) => negb (mem_node p (map enode out))
+                    | Err _ => false
+                    end) l.
+
+Definition wf_world_b (w : world) : bool :=
+  forallb (fun it => forallb (fun e =>
+    match eres e with
+    | Some r => declared w (ename e) r
+    | None => match evers e with Some v => negb (declared w (ename e) v) | None => true end
+    end) (snd it)) w.
+
+Lemma hyps_by_computation fuel w top l :
+  length w < fuel -> closure_list fuel w top = Some l ->
+  one_version_b l = true -> acyclic_b fuel w l = true -> wf_world_b w = true ->
+  wf_world w /\ one_version_per_name w top /\ acyclic_from w top.
+Proof.
+  intros Hf Hc H1 H2 H3. unfold closure_list in Hc.
+  destruct (walk_top_spec w [] top fuel Hf) as [out [st [E Hout]]]. rewrite E in Hc. inversion Hc. subst l. clear Hc.
+  assert (Hcl : forall q, closure w top q -> In q (top :: map enode out)).
+  { intros q [-> | R]; [left; reflexivity | right; apply Hout, R]. }
+  split; [|split].
+  - intros n v es e T Ie. apply table_of_In in T. unfold wf_world_b in H3. rewrite forallb_forall in H3.
+    specialize (H3 _ T). simpl in H3. rewrite forallb_forall in H3. specialize (H3 e Ie). split.
+    + intros r Er. rewrite Er in H3. exact H3.
+    + intros v' Er Ev. rewrite Er, Ev in H3. apply negb_true_iff, H3.
+  - intros p q Cp Cq Hn. unfold one_version_b in H1. rewrite forallb_forall in H1.
+    specialize (H1 p (Hcl p Cp)). rewrite forallb_forall in H1. specialize (H1 q (Hcl q Cq)).
+    rewrite Hn, str_eqb_refl in H1. simpl in H1. apply node_eqb_eq, H1.
+  - intros p Cp R. unfold acyclic_b in H2. rewrite forallb_forall in H2. specialize (H2 p (Hcl p Cp)).
+    destruct (walk_top_spec w [] p fuel Hf) as [outp [stp [Ep Hp]]]. rewrite Ep in H2.
+    apply negb_true_iff, mem_node_not_In in H2. apply H2, Hp, R.
+Qed.
